@@ -77,6 +77,19 @@ func (sc fScenario) setup() *fWorld {
 		fw.rec = mustEnc(fw.s, fw.pay)
 		fw.w.MS.Revoke(ref.SystemKeyID("s", "p", ""), fw.w.MS.Latest(ref.SystemKeyID("s", "p", "")).Created)
 		vclock.Advance((2*R + 1) * time.Second)
+	case "revokedIKsameMinute":
+		// the revoked key cannot be replaced yet: a new key would get the same (id, created) and the insert is a genuine duplicate
+		fw.rec = mustEnc(fw.s, fw.pay)
+		fw.w.MS.Revoke(ref.IntermediateKeyID("A", "s", "p", ""), fw.rec.Key.ParentKeyMeta.Created)
+		fw.s.Close()
+		fw.s, _ = fw.f.GetSession("A")
+	case "revokedSKsameMinute":
+		fw.rec = mustEnc(fw.s, fw.pay)
+		fw.w.MS.Revoke(ref.SystemKeyID("s", "p", ""), fw.w.MS.Latest(ref.SystemKeyID("s", "p", "")).Created)
+		fw.s.Close()
+		fw.f.Close()
+		fw.f = fw.w.NewFactory(sc.spec)
+		fw.s, _ = fw.f.GetSession("A")
 	case "skOnly":
 		sb, _ := fw.f.GetSession("B")
 		mustEnc(sb, fw.pay)
@@ -303,7 +316,7 @@ func fScenarios(thorough bool) []fScenario {
 		specs = []PolicySpec{SpecDefault, SpecNoCache, SpecShared("lru", 1)}
 	}
 	for _, sp := range specs {
-		for _, prep := range []string{"cold", "warm", "rotating", "revokedIK", "revokedSK", "skOnly"} {
+		for _, prep := range []string{"cold", "warm", "rotating", "revokedIK", "revokedSK", "skOnly", "revokedIKsameMinute", "revokedSKsameMinute"} {
 			out = append(out, fScenario{name: sp.Name + "/" + prep, spec: sp, prep: prep, op: "enc"})
 		}
 		for _, prep := range []string{"cold", "warm", "stale"} {
